@@ -55,7 +55,7 @@ def layout(rng, records, style=None):
 
 
 def rand_name(rng, i):
-    base = rng.choice(["q", "seq", "hCoV-19/x", "s|1", "A.1"]) + str(i)
+    base = rng.choice(["q", "seq", "hCoV-19/x", "s|1", "A.1", "q", "seq", "a,b", 'q"', '"x"y"', "x,", ";=%#:"]) + str(i)      # IDs are free text
     if rng.random() < 0.3:
         # any run of Unicode-free ASCII white space ends the ID (strings.Fields): space, tab, VT, FF, and mixtures
         base += rng.choice([" ", " ", "\t", "  ", "\t ", " \t", "\x0b", "\x0c"]) + rng.choice(["desc", "some text here", "x=1\ty", "a\tb c"])
